@@ -234,6 +234,9 @@ pub fn panic_site(msg: &str) -> String {
 
 // ---------------------------------------------------------------- context
 
+/// set by `--threads-only`: monitors with a concurrent workload run only that part (TSan pass)
+pub static THREADS_ONLY: std::sync::atomic::AtomicBool = std::sync::atomic::AtomicBool::new(false);
+
 #[derive(Clone, Copy, PartialEq, Eq, Debug)]
 pub enum Tier {
     Quick,
